@@ -581,6 +581,66 @@ pub open spec fn inherited_cmds(base: Seq<CmdResource>, dfi: Seq<TargetId>, m: M
     if n <= 0 { base } else { inherited_cmds(base, dfi, m, n - 1) + (match m[dfi[n - 1]].out() { Some(o) => o.cmds@, None => Seq::empty() }) }
 }
 
+/// [C09.terminates] the measure of `add_target`: number of yaml targets still in the configuration, summed
+/// over a fixed enumeration `keys` of the project names
+pub open spec fn remaining(c: &Config, keys: Seq<Option<String>>) -> nat
+    decreases keys.len()
+{
+    if keys.len() == 0 { 0 } else {
+        remaining(c, keys.drop_last()) + (if c.projects@.contains_key(keys.last()) { c.projects@[keys.last()].1.targets@.len() } else { 0 })
+    }
+}
+pub open spec fn keys_of(c: &Config) -> Seq<Option<String>> { c.projects@.dom().to_seq() }
+
+/// consuming yaml targets never increases the measure
+pub proof fn lemma_shrinks_remaining(a: &Config, b: &Config, keys: Seq<Option<String>>)
+    requires cfg_shrinks(a, b),
+    ensures remaining(b, keys) <= remaining(a, keys),
+    decreases keys.len()
+{
+    if keys.len() > 0 {
+        lemma_shrinks_remaining(a, b, keys.drop_last());
+        let k = keys.last();
+        if a.projects@.contains_key(k) {
+            assert(b.projects@.contains_key(k));
+            assert(b.projects@[k].1.targets@.dom().subset_of(a.projects@[k].1.targets@.dom()));
+            vstd::set_lib::lemma_len_subset(b.projects@[k].1.targets@.dom(), a.projects@[k].1.targets@.dom());
+            assert(b.projects@[k].1.targets@.len() == b.projects@[k].1.targets@.dom().len());
+            assert(a.projects@[k].1.targets@.len() == a.projects@[k].1.targets@.dom().len());
+        }
+    }
+}
+/// removing one yaml target of a project that occurs in `keys` makes the measure strictly smaller
+pub proof fn lemma_removed_remaining(a: &Config, b: &Config, keys: Seq<Option<String>>, p: Option<String>, t: String)
+    requires cfg_shrinks(a, b), keys.contains(p), a.projects@.contains_key(p),
+        a.projects@[p].1.targets@.contains_key(t), !b.projects@[p].1.targets@.contains_key(t),
+    ensures remaining(b, keys) < remaining(a, keys),
+    decreases keys.len()
+{
+    if keys.len() > 0 {
+        let k = keys.last();
+        lemma_shrinks_remaining(a, b, keys.drop_last());
+        if k == p {
+            let da = a.projects@[p].1.targets@.dom();
+            let db = b.projects@[p].1.targets@.dom();
+            assert(db.subset_of(da.remove(t)));
+            vstd::set_lib::lemma_len_subset(db, da.remove(t));
+            assert(b.projects@[p].1.targets@.len() == db.len());
+            assert(a.projects@[p].1.targets@.len() == da.len());
+        } else {
+            let i = choose|i: int| 0 <= i < keys.len() && keys[i] == p;
+            assert(keys.drop_last()[i] == p);
+            lemma_removed_remaining(a, b, keys.drop_last(), p, t);
+            if a.projects@.contains_key(k) {
+                assert(b.projects@[k].1.targets@.dom().subset_of(a.projects@[k].1.targets@.dom()));
+                vstd::set_lib::lemma_len_subset(b.projects@[k].1.targets@.dom(), a.projects@[k].1.targets@.dom());
+                assert(b.projects@[k].1.targets@.len() == b.projects@[k].1.targets@.dom().len());
+                assert(a.projects@[k].1.targets@.len() == a.projects@[k].1.targets@.dom().len());
+            }
+        }
+    }
+}
+
 pub proof fn lemma_shrinks_trans(a: &Config, b: &Config, c: &Config)
     requires cfg_shrinks(a, b), cfg_shrinks(b, c),
     ensures cfg_shrinks(a, c),
@@ -593,7 +653,6 @@ pub proof fn lemma_shrinks_trans(a: &Config, b: &Config, c: &Config)
 }
 
 //@fn src/config/ir.rs Config::try_into_domain_targets::add_target ret=r
-//@attr #[verifier::exec_allows_no_decreases_clause]
 //@attr #[verifier::loop_isolation(false)]
 //@refvar dependency_id
 //@replace `[parent_targets, &[target_id]].concat()` => `chain_with(parent_targets, target_id)` rule=R13 pre why=`slice-of-slices concat -> prelude stub chain_with (ensures r@ == parents@.push(id))`
@@ -608,15 +667,25 @@ pub proof fn lemma_shrinks_trans(a: &Config, b: &Config, c: &Config)
         /*[C09.unknown]*/ !old(domain_targets)@.contains_key(*target_id) && !cfg_has(old(config), *target_id) ==> r is Err,
         /*[C09.acyclic]*/ !old(domain_targets)@.contains_key(*target_id) && parent_targets@.contains(target_id) ==> r is Err,
         r is Err ==> closed(final(domain_targets)@) && keyed(final(domain_targets)@),
+    decreases
+        /*[C09.terminates]*/ remaining(old(config), keys_of(old(config))),
 //@pre
         broadcast use group_keys;
         broadcast use axiom_string_key_model;
         broadcast use vstd::std_specs::hash::group_hash_axioms;
         let ghost dt0 = domain_targets@;
         let ghost c0 = *config;
+        let ghost keys = keys_of(&c0);
 //@after 0 `let (project_dir, yaml_target) =`
             let ghost c1 = *config;
-            proof { assert(cfg_shrinks(&c0, &c1)); }
+            proof {
+                assert(cfg_shrinks(&c0, &c1));
+                assert(c0.projects@.dom().contains(target_id.project_name));
+                c0.projects@.dom().lemma_to_seq_to_set_id();
+                assert(keys.to_set().contains(target_id.project_name));
+                assert(keys.contains(target_id.project_name));
+                lemma_removed_remaining(&c0, &c1, keys, target_id.project_name, target_id.target_name);
+            }
 //@after 0 `let (mut target,`
             let ghost refs = dependencies_from_input@;
 //@after 0 `target.extend_dependencies(&dependencies_from_input);`
@@ -630,7 +699,7 @@ pub proof fn lemma_shrinks_trans(a: &Config, b: &Config, c: &Config)
             invariant
                 closed(domain_targets@), keyed(domain_targets@),
                 extends(dt0, domain_targets@),
-                cfg_shrinks(&c0, config),
+                cfg_shrinks(&c0, config), cfg_shrinks(&c1, config),
                 it.seq().unref() == deps_all,
                 target.meta().dependencies@ == deps_all, target.meta().id == *target_id,
                 forall|j: int| #![trigger deps_all[j]] 0 <= j < it.index@ ==> domain_targets@.contains_key(deps_all[j]),
@@ -642,6 +711,10 @@ pub proof fn lemma_shrinks_trans(a: &Config, b: &Config, c: &Config)
                 proof {
                     assert(it.seq().unref()[it.index@ as int] == *dependency_id);
                     assert forall|c2: Config| #[trigger] cfg_shrinks(&cfg_before, &c2) implies cfg_shrinks(&c0, &c2) by { lemma_shrinks_trans(&c0, &cfg_before, &c2); }
+                    // [C09.terminates] the recursive call works on a configuration with fewer yaml targets
+                    assert(cfg_shrinks(&c1, &cfg_before));
+                    lemma_shrinks_remaining(&c1, &cfg_before, keys);
+                    assert(keys_of(&cfg_before) == keys);
                     assert forall|m2: Map<TargetId, Target>| #[trigger] extends(dt_before, m2) implies extends(dt0, m2) by { }
                 }
 //@after 0 `add_target(domain_targets, config, dependency_id, &targets_chain)?`
